@@ -833,9 +833,18 @@ class Context(MetadataContextMixin, object):
                 f"Failed getting metadata for key '{key}'",
                 traceback=traceback.format_exc(),
             )
-            self.warning(
+            # the failure names the resource query and its position; both copies of the metadata are marked as error
+            position = resource_query.position
+            state.metadata["status"] = Status.ERROR.value
+            state.metadata["log"][-1]["query"] = self.raw_query
+            state.metadata["log"][-1]["position"] = (
+                None if position is None else position.to_dict()
+            )
+            self.exception(
                 f"Failed getting metadata for key '{key}'",
                 traceback=traceback.format_exc(),
+                position=position,
+                query=self.raw_query,
             )
             return state
 
